@@ -87,7 +87,7 @@ def run(tier, seed):
              'write, every recv: EOF / socket error / arbitrary exception, every library or application sendall, selector wait) is '
              'replayed; for a set of base streams the terminal fault is moved to every byte offset; non-trivial = distinct '
              '(faults, event sequence, offset) triples',
-        nontrivial=nontrivial, anchors=anchors, variants=variants, sample_keys=('ev', 'wrf', 'rd', 'sock'),
+        nontrivial=nontrivial, need_actions=('Connect', 'SendRequest', 'Recv', 'ExitNonGraceful', 'RegPing'), anchors=anchors, variants=variants, sample_keys=('ev', 'wrf', 'rd', 'sock'),
         random_scripts=[{'cfgname': 'CfgPlain', 'cfg': PLAIN, 'n': (300, 4000), 'http': 'HttpAll', 'items': 'C09Items', 'faults': {'all'}}])
     need = {'recv_eof', 'recv_error', 'recv_boom', 'write_fail_op_-1', 'write_fail_op_10', 'write_fail_op_8', 'write_fail_op_9',
             'write_fail_op_1', 'refused', 'dns_fail', 'wait_raise', 'app_send_transport_fail'}
